@@ -34,6 +34,9 @@ CHECKS = {
  "C08": (True, MC, "exhaustive enumeration of extension chains/fans over two files on the real generator, syn item model compared with the reference member lists",
          "All extension chains of depth 1 (files x declaration order x 5x5 own contents, with fan-out and a forward-lookup decoy) and depth 2 (thorough: depth 4) are generated; each derived struct's member list must equal base members (recursively) then own elements then own attributes, and every element member's prefix must be bound, in the struct's own namespaces map, to the namespace of the schema that declared it.",
          "Contents beyond depth 1 are restricted to three kinds; one open known finding (types of a file imported cyclically whose base lives in the importer are dropped).", "4/C08"),
+ "C01": (True, MC, "breadth-first exploration of schema/WSDL productions on the real generator; rustc (edition 2024, six documented crates only) as the oracle on every state",
+         "From the XSD and WSDL seeds every single production (member kinds, every builtin, 12 names incl. keywords x 5 naming positions, multi-file import graphs with 3-4 namespaces, operation name styles, one-way operations, 1-3 header parts per direction, explicit parts, imported-namespace elements, 2-3 operations, service name styles, addresses; about 270 states; thorough: all pairs of WSDL productions and the depth-2 member pairs, about 2.6 k states) is printed, run through the real generator, parsed with syn and compiled by rustc as a #[path] module of a package whose manifest lists exactly yaserde, yaserde_derive, xml-rs, log, reqwest, tokio. Any diagnostic of level error inside the emitted file is a violation, attributed to the state.",
+         "Trusted: rustc 1.95 and the six crates at the versions of /repo/Cargo.lock. Interactions needing more than two productions, and more than four files, are outside the bound. Compile results are memoised on a hash of the package sources.", "4/C01"),
 }
 
 NOT_YET = {
